@@ -13,6 +13,13 @@ def gen(r, n):
     # stop/continue while running; while slow; during the timeout grace period (the F3 scenario)
     scs.append(dict(u=150, period=4, ta=None, grace=2, leak=0.7, dur=3.5, on_term="exit", sigs=[(1.5, "TSTP"), (5.5, "CONT")]))
     scs.append(dict(u=150, period=1, ta=2, grace=2, leak=0.7, dur=8.5, on_term="ignore", sigs=[(2.5, "TSTP"), (6.5, "CONT")]))
+    # a unit that sorts earlier sat in a retry delay when a first shutdown signal came (it returned without a
+    # Finished event and its request channel is closed): stop / continue and an information request must still
+    # reach the stubborn test that is being terminated
+    scs.append(dict(u=150, period=20, ta=None, grace=14, leak=0.7, dur=9, on_term="ignore",
+                    retry_companion=dict(delay=40), sigs=[(1.5, "INT"), (3.5, "TSTP"), (6.5, "CONT")]))
+    scs.append(dict(u=150, period=20, ta=None, grace=14, leak=0.7, dur=7, on_term="ignore",
+                    retry_companion=dict(delay=40), sigs=[(1.5, "TERM"), (3.5, "USR1")]))
     # the same without the double-spawn launcher (units spawned directly): the group is still stopped
     scs.append(dict(u=150, period=4, ta=None, grace=2, leak=0.7, dur=3.5, on_term="exit", sigs=[(1.5, "TSTP"), (5.5, "CONT")],
                     direct_spawn=True))
